@@ -100,13 +100,13 @@ func runXnode(in xIn) (out xOut) {
 		must(err)
 		return m
 	}
-	keys := map[string]string{"m1": base + "-one", "m2": base + "-two"}
-	maps := map[string]*models.PortMapping{"m1": mk(wA.L.id, wA.T.id, keys["m1"]), "m2": mk(wA.S.id, wA.X.id, keys["m2"])}
-	idOf := map[string]int{maps["m1"].ID: 1, maps["m2"].ID: 2}
-	nameOf := map[int]string{0: "", 1: "m1", 2: "m2"}
+	keys := map[string]string{"m1": base + "-one", "m2": base + "-two", "m3": base + "-srv"}
+	maps := map[string]*models.PortMapping{"m1": mk(wA.L.id, wA.T.id, keys["m1"]), "m2": mk(wA.S.id, wA.X.id, keys["m2"]), "m3": mk(0, wA.T.id, keys["m3"])}
+	idOf := map[string]int{maps["m1"].ID: 1, maps["m2"].ID: 2, maps["m3"].ID: 3}
+	nameOf := map[int]string{0: "", 1: "m1", 2: "m2", 3: "m3"}
 	clients := map[string]client{"L": wA.L, "T": wA.T, "S": wA.S, "X": wA.X}
-	listenOf := map[string]string{"m1": "L", "m2": "S"}
-	targetOf := map[string]string{"m1": "T", "m2": "X"}
+	listenOf := map[string]string{"m1": "L", "m2": "S", "m3": "-"}
+	targetOf := map[string]string{"m1": "T", "m2": "X", "m3": "T"}
 
 	type xo struct {
 		step     int
@@ -125,6 +125,12 @@ func runXnode(in xIn) (out xOut) {
 		polling  bool
 	}
 	opens := map[int]*xo{}
+	var srvFakes []*fakeConn
+	defer func() {
+		for _, f := range srvFakes {
+			f.Close()
+		}
+	}()
 	var order []*xo
 	fail := func(class, msg string) {
 		if out.PropOK {
@@ -208,6 +214,14 @@ func runXnode(in xIn) (out xOut) {
 	for i, st := range in.Steps {
 		out.Opens[i] = []int{0, 0}
 		switch st.Op {
+		case "srv":
+			// node A's server starts a tunnel itself on the server-side-listener mapping m3 (it chooses the tunnel id)
+			wA.seq++
+			sf := newFakeConn("198.51.99.7", 30000+wA.seq%20000)
+			srvFakes = append(srvFakes, sf)
+			id, err := wA.fx.Session.StartServerTunnel(maps["m3"].ID, sf)
+			must(err)
+			tunID[st.Tun] = id
 		case "release":
 			o := opens[st.Step]
 			if o == nil || !o.gated {
@@ -231,14 +245,18 @@ func runXnode(in xIn) (out xOut) {
 			if cl, ok := clients[st.Who]; ok {
 				w.authTunnelConn(fc, c, cl, 2)
 				authed = true
+			} else if st.Who == "half" {
+				w.authTunnelConn(fc, c, w.S, 1)
 			}
 			req := &packet.TunnelOpenRequest{TunnelID: tunID[st.Tun]}
 			right, other := keys["m1"], keys["m2"]
-			if st.Mid == "m1" || st.Mid == "m2" {
+			if st.Mid == "m1" || st.Mid == "m2" || st.Mid == "m3" {
 				o.named = st.Mid
 				req.MappingID = maps[st.Mid].ID
 				if st.Mid == "m2" {
 					right, other = keys["m2"], keys["m1"]
+				} else if st.Mid == "m3" {
+					right = keys["m3"]
 				}
 			}
 			req.SecretKey = secretFor(st.Secret, right, other)
@@ -416,11 +434,17 @@ func runXnode(in xIn) (out xOut) {
 					src = opens[idx-1]
 				}
 			}
-			if src == nil {
-				continue
-			}
 			marker := []byte(fmt.Sprintf("SECRET-OF-%s-ON-%s", tunID[k], w.node))
-			src.fc.feed(marker)
+			if src == nil {
+				if len(srvFakes) == 0 || idOf[b.GetMappingID()] != 3 {
+					continue
+				}
+				for _, f := range srvFakes { // the server's own source of a StartServerTunnel bridge writes
+					f.feed(marker)
+				}
+			} else {
+				src.fc.feed(marker)
+			}
 			deadline := time.Now().Add(2 * time.Second)
 			seen := func() bool {
 				for _, o := range order {
